@@ -366,7 +366,7 @@ func (r *runner) runAlone(j Job, guardMS int) childEnd {
 	return runChild([]Job{j}, r.watchdog(guardMS))
 }
 
-// A missing terminal reply is confirmed in isolation (3 runs, 5x guard) for
+// A missing terminal reply is confirmed in isolation (3 runs, 8x guard) for
 // the first three cases per request kind; after three confirmed ones further
 // cases of the kind are taken as they are (same signature, saves hours when a
 // defect makes thousands of cases hang).
@@ -481,7 +481,7 @@ func (r *runner) resultReport(j Job, res *Result) *caseReport {
 		// candidate "no reply": confirm 3x alone with a longer guard
 		var clean *Result
 		for i := 0; i < 3; i++ {
-			e2 := r.runAlone(j, r.guardMS*5)
+			e2 := r.runAlone(j, r.guardMS*8)
 			r2 := e2.results[j.ID]
 			if r2 == nil {
 				if e2.inflight == j.ID {
@@ -498,7 +498,7 @@ func (r *runner) resultReport(j Job, res *Result) *caseReport {
 		}
 		if clean != nil {
 			res = clean
-			r.c.OutcomeN("slow-case-reconfirmed", 1)
+			r.c.ExtraAdd("slow_cases_reconfirmed_clean", 1)
 		} else {
 			r.confirmed(classify(res.Steps[idx0].Msg).Kind)
 		}
@@ -507,7 +507,8 @@ func (r *runner) resultReport(j Job, res *Result) *caseReport {
 	rep.viols, rep.outcomes, rep.nontriv, rep.handles = jd.viols, jd.outcomes, jd.nontrivial, jd.handles
 	rep.unsett = !res.Settled
 	if res.OpenQ > 0 || res.OpenS > 0 {
-		rep.outcomes = append(rep.outcomes, "left-open-after-cleanup")
+		// not part of the statement and timing dependent (the entry is removed after the last reply was sent)
+		r.c.ExtraAdd("cases_with_query_or_sub_entries_left_after_cleanup", 1)
 	}
 	return rep
 }
